@@ -456,6 +456,13 @@ def run_pipeline(
             is_destructive_readout: bool = not detector.non_destructive_readout
             detector.empty(is_destructive_readout)
 
+            if debug:
+                # The buckets "changed by a model" are found by comparing with the
+                # detector as the reset above leaves it, not with the previous step
+                detector.intermediate["last"] = xr.DataTree(
+                    detector.to_xarray().copy(deep=True)
+                )
+
             # Execute the pipeline for this step.
             processor.run_pipeline(debug=debug)
 
